@@ -1,3 +1,5 @@
+(* ADDED IN THE THIRD ROUND (EventsAvail.v): announced ranges = availability gained, per call and per history (C13_*_availability, C13_history_availability).
+   ---- header of the earlier rounds: ---- *)
 (* C13 — replication events announce exactly the state changes that happened (pinned statements; proofs
    in CoreFacts.v). `w_events` is the list of events sent so far, newest first. For EVERY state and input:
    a successful non-empty append sends Upgrade then Have(old length, batch size); an accepted proof sends
@@ -8,6 +10,7 @@
    Partial by nature: that every subscriber receives the same sequence is a property of async_broadcast
    (capacity 32), covered by tools/c13.py with 1-3 subscribers and < 32 undrained events. *)
 From HC Require Import Base NMap Codec Crypto FlatTree Storage Bitfield Oplog Merkle Core CoreFacts.
+From HC Require Import EventsAvail.
 
 Theorem C13_append_events : forall cr f batch c w c' w' r,
   core_append cr f batch c w = (c', w', r) ->
@@ -52,6 +55,121 @@ Theorem C13_other_calls_silent : forall cr i,
   silent (core_make_read_only cr) /\ silent (core_missing_nodes i) /\ silent (core_missing_nodes_tree i).
 Proof. intros cr i. split; [apply make_read_only_silent | apply missing_nodes_silent]. Qed.
 
+Theorem C13_append_availability :
+  forall (cr : crypto) (f : option bool) (batch : list bytes) (c : core) (w : world) 
+           (c' : core) (w' : world) (x : N * N),
+         core_append cr f batch c w = (c', w', Ok x) ->
+         forall i : N,
+         core_has c' i =
+         core_has c i
+         || (t_length (c_tree c) <=? i) && (i <? t_length (c_tree c) + N.of_nat (Datatypes.length batch)).
+Proof. exact append_has. Qed.
+
+Theorem C13_apply_availability :
+  forall (cr : crypto) (f : option bool) (pf : proof) (c : core) (w : world) (c' : core) (w' : world),
+         core_apply_proof cr f pf c w = (c', w', Ok true) ->
+         forall i : N,
+         core_has c' i = core_has c i || match p_block pf with
+                                         | Some b => i =? db_index b
+                                         | None => false
+                                         end.
+Proof. exact apply_has. Qed.
+
+Theorem C13_refused_apply_changes_nothing :
+  forall (cr : crypto) (f : option bool) (pf : proof) (c : core) (w : world) (c' : core) (w' : world),
+         core_apply_proof cr f pf c w = (c', w', Ok false) -> c' = c /\ w' = w.
+Proof. exact apply_refused. Qed.
+
+Theorem C13_clear_only_removes :
+  forall (cr : crypto) (f : option bool) (s e : N) (c : core) (w : world) (c' : core) 
+           (w' : world) (u : unit),
+         core_clear cr f s e c w = (c', w', Ok u) ->
+         forall i : N, core_has c' i = core_has c i && negb ((s <=? i) && (i <? e)).
+Proof. exact clear_has. Qed.
+
+Theorem C13_reads_keep_availability :
+  forall cr : crypto,
+         (forall (i : N) (c : core) (w : world) (c' : core) (w' : world) (r : res (option bytes)),
+          core_get i c w = (c', w', r) -> c' = c) /\
+         (forall (b h : option req_block) (s : option req_seek) (u : option req_upgrade) 
+            (c : core) (w : world) (c' : core) (w' : world) (r : res (option proof)),
+          core_create_proof b h s u c w = (c', w', r) -> c' = c) /\
+         (forall (i : N) (c : core) (w : world) (c' : core) (w' : world) (r : res N),
+          core_missing_nodes i c w = (c', w', r) -> c' = c) /\
+         (forall (i : N) (c : core) (w : world) (c' : core) (w' : world) (r : res N),
+          core_missing_nodes_tree i c w = (c', w', r) -> c' = c) /\
+         (forall (c : core) (w : world) (c' : core) (w' : world) (r : res bool),
+          core_make_read_only cr c w = (c', w', r) ->
+          (forall i : N, core_has c' i = core_has c i) /\ t_length (c_tree c') = t_length (c_tree c)).
+Proof. exact read_only_calls_keep_availability. Qed.
+
+Theorem C13_history_availability :
+  forall (cr : crypto) (ops : list op) (c : core) (w : world) (c' : core) (w' : world) (oks : list bool),
+         run_ops cr ops c w = (c', w', oks) ->
+         exists evs : list event,
+           w_events w' = evs ++ w_events w /\
+           (forall i : N, core_has c i || announced evs i = true -> core_has c' i = true) /\
+           (forallb (fun b : bool => b) oks = true ->
+            forall i : N, core_has c' i = core_has c i || announced evs i).
+Proof. exact history_avail. Qed.
+
+Theorem C13_history_availability_upper :
+  forall (cr : crypto) (ops : list op) (c : core) (w : world) (c' : core) (w' : world) (oks : list bool),
+         run_ops cr ops c w = (c', w', oks) ->
+         exists evs : list event,
+           w_events w' = evs ++ w_events w /\
+           (forall i : N,
+            core_has c' i = true -> core_has c i || announced evs i || failed_ranges cr ops c w i = true).
+Proof. exact history_avail_upper. Qed.
+
+Theorem C13_writer_announcements_fresh :
+  forall (cr : crypto) (ops : list op) (c : core) (w : world) (c' : core) (w' : world) (oks : list bool),
+         forallb (fun o : op => negb (is_apply o)) ops = true ->
+         run_ops cr ops c w = (c', w', oks) ->
+         bounded c ->
+         exists evs : list event,
+           w_events w' = evs ++ w_events w /\
+           bounded c' /\
+           t_length (c_tree c) <= t_length (c_tree c') /\
+           (forall i : N, announced evs i = true -> t_length (c_tree c) <= i /\ core_has c i = false).
+Proof. exact writer_history_fresh. Qed.
+
+Theorem C13_failed_append_characterised :
+  forall (cr : crypto) (f : option bool) (batch : list bytes) (c : core) (w : world) 
+           (c' : core) (w' : world) (r : res (N * N)),
+         core_append cr f batch c w = (c', w', r) ->
+         is_ok r = false ->
+         let n := t_length (c_tree c) in
+         let k := N.of_nat (Datatypes.length batch) in
+         let data := SW Data (t_byte_length (c_tree c)) (concat batch) in
+         w_events w' = w_events w /\
+         ((forall i : N, core_has c' i = core_has c i) /\
+          t_length (c_tree c') = n /\ (w_journal w' = w_journal w \/ w_journal w' = data :: w_journal w) \/
+          (forall i : N, core_has c' i = core_has c i || in_range n k i) /\
+          t_length (c_tree c') = n + k /\
+          batch <> [] /\
+          (exists (rest : list sop) (fr : bytes),
+             w_journal w' =
+             rest ++ SW Oplog (ENTRIES_OFFSET + ol_entries_bytes (c_oplog c)) fr :: data :: w_journal w)).
+Proof. exact append_failure. Qed.
+
+Theorem C13_failed_apply_characterised :
+  forall (cr : crypto) (f : option bool) (pf : proof) (c : core) (w : world) 
+           (c' : core) (w' : world) (r : res bool),
+         core_apply_proof cr f pf c w = (c', w', r) ->
+         is_ok r = false ->
+         w_events w' = w_events w /\
+         ((forall i : N, core_has c' i = core_has c i) /\
+          c_tree c' = c_tree c /\
+          (w_journal w' = w_journal w \/ (exists off : N, w_journal w' = block_write pf off ++ w_journal w)) \/
+          (forall i : N, core_has c' i = core_has c i || carried pf i) /\
+          apply_newlen cr pf c w c' /\
+          (exists (rest : list sop) (fr : bytes) (off : N),
+             w_journal w' =
+             rest ++
+             SW Oplog (ENTRIES_OFFSET + ol_entries_bytes (c_oplog c)) fr :: block_write pf off ++ w_journal w)).
+Proof. exact apply_failure. Qed.
+
 Print Assumptions C13_append_events.
 Print Assumptions C13_apply_events.
 Print Assumptions C13_get_events.
@@ -60,3 +178,17 @@ Print Assumptions C13_create_proof_events.
 Print Assumptions C13_other_calls_silent.
 Print Assumptions toy_append_get_events.
 Print Assumptions toy_apply_events.
+Print Assumptions C13_append_availability.
+Print Assumptions C13_apply_availability.
+Print Assumptions C13_refused_apply_changes_nothing.
+Print Assumptions C13_clear_only_removes.
+Print Assumptions C13_reads_keep_availability.
+Print Assumptions C13_history_availability.
+Print Assumptions C13_history_availability_upper.
+Print Assumptions C13_writer_announcements_fresh.
+Print Assumptions C13_failed_append_characterised.
+Print Assumptions C13_failed_apply_characterised.
+Print Assumptions EventsAvail.toy_writer_history.
+Print Assumptions EventsAvail.toy_replica_history.
+Print Assumptions EventsAvail.late_failure_breaks_equation.
+Print Assumptions EventsAvail.apply_bounded_needs_store_invariant.
